@@ -47,6 +47,10 @@ type Action struct {
 	Delay      time.Duration // sleep before the call
 	Gate       *Gate         // block on the gate before the call
 	Tag        string        // free-form label for the injected error
+	// Err, when set together with Fail, is the error the call returns instead of the generic
+	// injected one (e.g. one wrapping the call's context error: a store that gave up because its
+	// caller's context ended, with nothing applied).
+	Err error
 }
 
 // Gate blocks callers until opened. With HonorCtx the wait also ends when the
@@ -545,6 +549,9 @@ func (m *InstrMetaStore) Update(ctx context.Context, writes []bs.WriteOperation,
 	}
 	if act.Fail {
 		// Update's contract is atomic: an error means nothing was applied.
+		if act.Err != nil {
+			return finish(act.Err, false)
+		}
 		return finish(injErr("Update", seq, act.Tag), false)
 	}
 	err := m.Inner.Update(ctx, writes, deletes)
